@@ -31,7 +31,7 @@ PathTemplates ==
         "/{k:(cats|dogs)}", "/{n:[0-9]+}/{y}", "/{y}/{n:[0-9]+}"}
 PathRoots ==
   IF Tier = "quick" THEN {"/", "/r", "/{w:[0-9]+}"}
-  ELSE {"/", "/r", "/r/", "/r/{w}", "/{w}", "/{w:[0-9]+}"}
+  ELSE {"/", "/r", "/r/", "/r/{w}", "/{w}", "/{w:[0-9]+}", "/{w}.f"}
 PathMethods == {"GET", "POST"}
 
 CommonTemplates ==
@@ -74,7 +74,8 @@ Tables ==
     [] Mode = "regexpos" ->
          \* the byte-identical regex token at different segment positions; a regex with its own group
          {<<Svc(root, rs)>> : root \in {"/r", "/{w:(cats|dogs)}"},
-            rs \in RouteSeqs(Routes1({"/{n:[0-9]+}/{y}", "/{y}/{n:[0-9]+}", "/{k:(cats|dogs)}/{y}", "/{y}/{c:(a|b)-(c|d)}"}, {"GET", "DELETE"}), 2)}
+            rs \in RouteSeqs(Routes1({"/{n:[0-9]+}/{y}", "/{y}/{n:[0-9]+}", "/{k:(cats|dogs)}/{y}", "/{y}/{c:(a|b)-(c|d)}"},
+                                    IF Tier = "quick" THEN {"GET"} ELSE {"GET", "DELETE"}), 2)}
     [] Mode = "media" ->
          \* a literal and a variable route of one method with different Produces (ranking must not follow Accept)
          LET ps == {<<JSONM>>, <<XMLM>>, <<XMLM, JSONM>>} IN
@@ -113,7 +114,8 @@ SegValues(p) ==
                                           <<"1" \o SubSeq(p.verb, 2, Len(p.verb))>>, <<"1:x" \o SubSeq(p.verb, 2, Len(p.verb))>>}
     [] p.kind = "var" /\ p.suf # ""   -> {<<"a" \o p.suf>>, <<"a">>, <<p.suf>>, <<"f">>}
     [] p.kind = "var"                 -> IF Tier = "quick" THEN {<<"a">>, <<"1">>} ELSE {<<"a">>, <<"1">>, <<"">>}
-    [] p.kind = "re"                  -> {<<"1">>, <<"a">>, <<"1a">>, <<"AB">>, <<"12">>, <<"cats">>, <<"xdogs">>, <<"a-c">>}
+    [] p.kind = "re"                  -> {<<"1">>, <<"a">>, <<"1a">>, <<"AB">>, <<"12">>, <<"cats">>, <<"xdogs">>}
+                                         \cup (IF Mode = "regexpos" THEN {<<"a-c">>} ELSE {})
     [] p.kind = "tail"                -> {<<>>, <<"a">>, <<"a", "b">>}
 
 RECURSIVE Instances(_, _)
